@@ -265,7 +265,7 @@ func Check(c *core.Ctx) (map[string]any, []string, error) {
 	s := &state{c: c, maxRecs: 30000, truncMod: 40}
 	nsel, nJunk := 60, 200000
 	if c.Thorough() {
-		nsel, nJunk, s.maxRecs, s.truncMod = 1500, 4000000, 160000, 8
+		nsel, nJunk, s.maxRecs, s.truncMod = 0, 4000000, 160000, 8
 	}
 	s.vms.New = func() any { return newBox() }
 	fams := []string{"mut", "early"}
